@@ -73,7 +73,7 @@ func scopeStrata() []*gast.Grammar {
 func c02Strata() []*gast.Grammar {
 	mk := func(rules ...*gast.Rule) *gast.Grammar { return &gast.Grammar{Rules: rules} }
 	r := func(n string, e *gast.Expr) *gast.Rule { return &gast.Rule{Name: n, Expr: e} }
-	return append(append(scopeStrata(), c06Strata()[:2]...), []*gast.Grammar{
+	return append(append(scopeStrata(), c06Strata()[1:3]...), []*gast.Grammar{
 		// predicate after an action: must see the current position and empty text
 		mk(r("S", gast.S(gast.Ref("A"), gast.L("b"), gast.AndC(2, mon.Spec{}), gast.Star(gast.Dot()))),
 			r("A", gast.A(gast.Plus(gast.L("a")), 1, mon.Spec{}))),
